@@ -834,9 +834,17 @@ func (r *proxyStreamReceiver) recvReplicationMessages(
 			// Retry across the whole target set until all sends succeed (or shutdown)
 			sentByTarget := make(map[history.ClusterShardID]bool, len(tasksByTargetShard))
 			loggedByTarget := make(map[history.ClusterShardID]bool, len(tasksByTargetShard))
-			for targetShardID := range tasksByTargetShard {
+			// A target that holds tasks of this source must take part in the aggregated ACK even before it has
+			// acknowledged anything: nothing below the first task routed to it is outstanding there. Every target of the
+			// batch is entered before the first hand-off, so an early ACK from one of them cannot pass the others' tasks.
+			r.ackMu.Lock()
+			for targetShardID, tasks := range tasksByTargetShard {
 				sentByTarget[targetShardID] = false
+				if _, tracked := r.ackByTarget[targetShardID]; !tracked {
+					r.ackByTarget[targetShardID] = tasks[0].SourceTaskId
+				}
 			}
+			r.ackMu.Unlock()
 			r.logger.Debug("Going to broadcast ReplicationTasks to target shards", tag.NewStringTag("tasksByTargetShard", fmt.Sprintf("%v", tasksByTargetShard)))
 			numRemaining := len(tasksByTargetShard)
 			backoff := 10 * time.Millisecond
@@ -863,13 +871,6 @@ func (r *proxyStreamReceiver) recvReplicationMessages(
 							},
 						},
 					}
-					// A target that holds tasks of this source must take part in the aggregated ACK even before it has
-					// acknowledged anything: nothing below the first task routed to it is outstanding there.
-					r.ackMu.Lock()
-					if _, tracked := r.ackByTarget[targetShardID]; !tracked {
-						r.ackByTarget[targetShardID] = tasks[0].SourceTaskId
-					}
-					r.ackMu.Unlock()
 					if r.shardManager.DeliverMessagesToShardOwner(targetShardID, &msg, shutdownChan, r.logger) {
 						sentByTarget[targetShardID] = true
 						numRemaining--
